@@ -270,7 +270,8 @@ def static_facts(rep, c):
                 lockers.append(b.name)
             if n.endswith('update_height') and not n.endswith('::update_height::{closure#0}'):
                 callers.append(b.name)
-    ok_w = set(writers) == {'update_height::{closure#0}'}
+    # update_height's own body, including closures nested in it (e.g. a `.then(|| ..)` doing the store)
+    ok_w = bool(writers) and all(w.startswith('update_height::{closure#0}') for w in set(writers))
     ok_l = set(lockers) <= {'update_height::{closure#0}', 'block_watcher::<impl at src/block_watcher.rs:71:1: 71:36>::current_height::{closure#0}'} \
         or all(('update_height' in x or 'current_height' in x) for x in lockers)
     rep.oblige(ok_w)
